@@ -185,8 +185,10 @@ def _eecc_call(net, ranks, nedges):
     script = RankScript(ranks, 4 * nedges + 20)
     with _patched(script):
         cover = net.get_EECC()
-        he = bool(net.has_edges())
-    return {"cover": _canon_cliques(cover), "has_edges": int(he), "keyed": int(script.keyed),
+        he_api = bool(net.has_edges())
+    # the working graph itself is inspected (a wrong has_edges() must not vouch for itself); the API answer is compared too
+    he = net.G.number_of_edges() > 0
+    return {"cover": _canon_cliques(cover), "has_edges": int(he), "has_edges_api": int(he_api), "keyed": int(script.keyed),
             "rounds": script.rounds if script.keyed else None, "counts": script.counts,
             "nodes_after": sorted(int(v) for v in net.G.nodes())}, cover
 
@@ -271,6 +273,8 @@ def _run_history(steps):
             with _patched(RankScript([], 10)):
                 last[o] = net.limited_maximal_cliques()
             out.append(_canon_cliques(last[o]))
+        elif st[0] == "he":
+            out.append(int(bool(net.has_edges())))
         elif st[0] == "damage":
             # the caller damages the value it was handed last (legitimate: it owns it)
             r = last.get(o)
@@ -356,7 +360,7 @@ def _hist_obs_steps(case, impl_obs):
     if _is_exc(impl_obs):
         return []
     return [(st, ct, ob) for st, ct, ob in zip(case["steps"], _contents(case["steps"]), impl_obs["steps"])
-            if st[0] in ("mc", "lim", "eecc")]
+            if st[0] in ("mc", "lim", "eecc", "he")]
 
 
 def _need_all(case, impl_obs):
@@ -404,7 +408,7 @@ def model_obs(case, raws):
     if mode == "float":
         return [[r[0], r[1]] for r in raws]
     if mode == "hist":
-        obs_steps = [st for st in case["steps"] if st[0] in ("mc", "lim", "eecc")]
+        obs_steps = [st for st in case["steps"] if st[0] in ("mc", "lim", "eecc", "he")]
         if len(raws) != len(obs_steps):
             return []
         return [_dec(r) if st[0] == "eecc" else r for st, r in zip(obs_steps, raws)]
@@ -428,6 +432,8 @@ def _cmp_one(a, b, where, edges, alls=None):
     for k in keys:
         if a[k] != b[k]:
             return f"{where}: {k}: impl {a[k]} model {b[k]}"
+    if a["has_edges_api"] != a["has_edges"]:
+        return f"{where}: has_edges() says {a['has_edges_api']} but the working graph has {'some' if a['has_edges'] else 'no'} edges"
     if a.get("input_unchanged", 1) != 1:
         return f"{where}: the edge list handed to add_edges_from was modified"
     if a.get("decoy_edges", 3) not in (1, 3):
@@ -467,6 +473,9 @@ def compare(case, impl_obs, model):
                     return d
                 if not _is_exc(ob) and ob["nodes_after"] != sorted(set(iso) | {v for e in es for v in e}):
                     return f"{where}: vertex set afterwards {ob['nodes_after']}"
+            elif st[0] == "he":
+                if ob != int(len(es) > 0):
+                    return f"{where}: has_edges() = {ob}"
             else:
                 want = mo[0] if st[0] == "mc" else mo[1]
                 if ob != sorted(want):
@@ -608,7 +617,9 @@ def _history(rng):
         es = _scramble(rng, es)
         k = rng.randint(1, len(es))
         w = _clique_number(es)
-        st = [["add", o, es[:k]], ["m0", o, max(2, rng.choice([2, w - 1, w, w + 1]))]]
+        if rng.random() < 0.3:
+            k = 1
+        st = [["add", o, es[:k]], ["he", o], ["m0", o, max(2, rng.choice([2, w - 1, w, w + 1]))]]
         st.append([rng.choice(["mc", "lim"]), o])
         if rng.random() < 0.6:
             st.append(["damage", o])
@@ -618,6 +629,7 @@ def _history(rng):
         if rng.random() < 0.5:
             st += [["m0", o, max(2, rng.choice([2, 3, w - 1, w]))], ["lim", o]]
         st.append(["eecc", o, [rng.randint(0, 5) for _ in range(rng.randint(0, 8))]])
+        st.append(["he", o])
         if rng.random() < 0.5:
             st.append(["damage", o])
         if rng.random() < 0.25:
